@@ -17,7 +17,9 @@ import (
 	"math/bits"
 	"os"
 	"reflect"
+	"regexp"
 	"runtime"
+	"runtime/debug"
 	"sort"
 	"strings"
 	"sync"
@@ -152,7 +154,54 @@ func dedupe(vs []any) []any {
 
 type pairOfStations [2]*station
 
-func wireHead(b []byte) string { return clip(string(b), 400) }
+var randomBoundary = regexp.MustCompile(`FiberFormBoundary[A-Za-z0-9]{16}`)
+
+// wireHead clips the serialised request; the client's random multipart boundary suffix is masked so that
+// evidence and replay files are the same on every run.
+func wireHead(b []byte) string {
+	return clip(randomBoundary.ReplaceAllString(string(b), "FiberFormBoundary<16 random>"), 400)
+}
+
+// goLit renders a struct unambiguously (quoted strings, nil vs empty slices).
+func goLit(v any) string {
+	if v == nil {
+		return ""
+	}
+	return strings.ReplaceAll(fmt.Sprintf("%#v", reflect.Indirect(reflect.ValueOf(v)).Interface()), "main.", "")
+}
+
+// sampler keeps candidate samples with their case ordinal; the lowest ordinals are reported (same on every run).
+type sampler struct {
+	mu sync.Mutex
+	s  []map[string]any
+}
+
+func (sp *sampler) add(ord int64, m map[string]any) {
+	m["ord"] = ord
+	sp.mu.Lock()
+	sp.s = append(sp.s, m)
+	sp.mu.Unlock()
+}
+
+func sampleOrd(v any) float64 {
+	if m, ok := v.(map[string]any); ok {
+		switch o := m["ord"].(type) {
+		case float64:
+			return o
+		case int64:
+			return float64(o)
+		}
+	}
+	return 0
+}
+
+func lowest(vs []any, n int) []any {
+	sort.SliceStable(vs, func(i, j int) bool { return sampleOrd(vs[i]) < sampleOrd(vs[j]) })
+	if len(vs) > n {
+		vs = vs[:n]
+	}
+	return vs
+}
 
 // roundTrip sends v and returns "" when the decoded struct equals it, else a failure kind + diff.
 func roundTrip(st *station, src source, v any) (kind string, d *diff, detail string) {
@@ -178,7 +227,7 @@ func roundTrip(st *station, src source, v any) (kind string, d *diff, detail str
 	return "", nil, ""
 }
 
-func partA(r *core.Run, col *collector) (shapes []shape) {
+func partA(r *core.Run, col *collector, sp *sampler) (shapes []shape) {
 	shapes = []shape{
 		{"S1", func() any { return new(S1) }, dedupe(s1Values(r.Quick()))},
 		{"S2", func() any { return new(S2) }, dedupe(s2Values(r.Quick()))},
@@ -246,21 +295,21 @@ func partA(r *core.Run, col *collector) (shapes []shape) {
 					st = sts[1]
 				}
 				st.ctl = ctl{src: it.src, viaBody: vr.viaBody, auto: vr.auto, newDst: it.sh.New}
+				caseOrd := it.ord + int64(vi-it.lo)*8 + int64(vj)
 				kind, d, detail := roundTrip(st, it.src, v)
 				if !vr.viaBody {
 					directKind = kind
 				}
 				l.Add("evaluations", 1)
 				l.Add("roundtrips", 1)
-				if !isZeroStruct(v) {
+				if interesting(v) {
 					l.Add("nontrivial", 1)
 				}
-				caseOrd := it.ord + int64(vi-it.lo)*8 + int64(vj)
 				if kind == "" {
 					l.Outcome(fmt.Sprintf("A %s %s equal", it.sh.Name, it.src))
-					if (vi*13+vj)%4099 == 17 && !isZeroStruct(v) {
-						l.Sample(map[string]any{"part": "roundtrip", "source": it.src.String(), "splitting": vr.split, "auto": vr.auto, "via_body": vr.viaBody,
-							"sent": fmt.Sprintf("%+v", v), "decoded": fmt.Sprintf("%+v", reflect.Indirect(reflect.ValueOf(st.obs.got)).Interface()), "wire": wireHead(st.wire)})
+					if caseOrd%4099 == 17 && interesting(v) {
+						sp.add(caseOrd, map[string]any{"part": "roundtrip", "source": it.src.String(), "splitting": vr.split, "auto": vr.auto, "via_body": vr.viaBody,
+							"sent": goLit(v), "decoded": goLit(st.obs.got), "wire": wireHead(st.wire)})
 					}
 					continue
 				}
@@ -269,10 +318,7 @@ func partA(r *core.Run, col *collector) (shapes []shape) {
 				}
 				l.Outcome(fmt.Sprintf("A %s %s %s", it.sh.Name, it.src, kind))
 				wire := wireHead(st.wire)
-				got := ""
-				if st.obs.got != nil {
-					got = fmt.Sprintf("%+v", reflect.Indirect(reflect.ValueOf(st.obs.got)).Interface())
-				}
+				got := goLit(st.obs.got)
 				// name the culprit field
 				var fname, fkind, fclass string
 				if d != nil {
@@ -305,7 +351,7 @@ func partA(r *core.Run, col *collector) (shapes []shape) {
 				sig := fmt.Sprintf("roundtrip %s src=%s%s field-kind=%s sent=%s%s", kind, it.src, via, fkind, fclass, extra)
 				mine.add(sig, vr.split, caseOrd, "value decoded by the binder differs from the value the bundled client sent ("+kind+")",
 					map[string]any{"shape": it.sh.Name, "source": it.src.String(), "splitting": vr.split, "auto_handling": vr.auto, "via_body": vr.viaBody,
-						"sent": fmt.Sprintf("%+v", v), "sent_go": fmt.Sprintf("%#v", v), "field": fname, "wire": wire},
+						"sent": goLit(v), "field": fname, "wire": wire},
 					map[string]any{"decoded": got, "detail": detail}, "decoded == sent (nil and empty slices identified)")
 			}
 		}
@@ -349,7 +395,7 @@ func calibrate() (maxWellFormed uint64, budget uint64, detail map[string]uint64)
 					worst = d
 				}
 			}
-			detail[src.String()+"/"+v.name] = worst
+			detail[src.String()+"/"+v.name] = (worst + 1023) &^ 1023 // KiB granularity: the last bytes vary with pool state
 			if worst > maxWellFormed {
 				maxWellFormed = worst
 			}
@@ -388,10 +434,21 @@ func main() {
 	}
 
 	maxWF, budget, calib := calibrate()
+	// the bundled client allocates a 1 MiB copy buffer for every multipart request (client/hooks.go
+	// parserRequestBodyFile); with the default GC pacing that is a collection every few round trips
+	debug.SetGCPercent(2000)
+	debug.SetMemoryLimit(6 << 30)
 	tA := time.Now()
 	col := newCollector()
-	shapes := partA(r, col)
+	sp := &sampler{}
+	shapes := partA(r, col, sp)
 	dA := time.Since(tA)
+	var samplesA []any
+	for _, m := range sp.s {
+		samplesA = append(samplesA, m)
+	}
+	samplesA = lowest(samplesA, 4)
+	r.P.Samples = nil
 	{
 		l := core.NewLocal()
 		fileViolations(l, col)
@@ -414,6 +471,7 @@ func main() {
 		}
 		r.Violate("totality worker-process-died "+grp, "a worker process binding hostile input died (fatal error / out of memory / unrecovered panic)", c, c, "every request is answered")
 	}
+	samples := append(samplesA, lowest(r.P.Samples, 4)...)
 	totalCases := 0
 	for _, g := range groups {
 		totalCases += g.NCases
@@ -436,9 +494,10 @@ func main() {
 			"evaluations":         r.P.Counters["evaluations"],
 			"distinct_nontrivial": r.P.Counters["nontrivial"],
 			"unspecified_skipped": r.P.Counters["unspecified_skipped"],
-			"rule": fmt.Sprintf("Part A: every value of S1{Str,Strs} (%d values: Str over %d strings x Strs over all lists of bounded length + a 40-element list + the empty non-nil slice) and of S2{I,I8,U,U32,F64,F32,B,Is,Fs,Bs} (%d values: scalar product x 3 slice configurations, plus scalar base points x product of the slice lists) "+
-				"is sent with the bundled client's struct API of each of the 8 sources under splitting{off,on} x auto-handling{off,on} x {per-source bind method, Bind().Body() for body carriers} and compared with the struct decoded in the handler; pairs the carrier cannot legally transport, and comma-containing values under splitting, are skipped and counted; a case is non-trivial when the sent struct is not the zero value. "+
-				"Part B: %d groups (5 key-value carriers x 5 bind targets x splitting; 5 body bind calls x 10 content types x 3 targets) each over all single hostile components and all ordered pairs of them, each request run with manual and automatic handling, judged for panic / error / status / paired consistency / allocation; non-trivial = carries at least one hostile component.",
+			"samples":             samples,
+			"rule": fmt.Sprintf("Part A: every value of S1{Str,Strs} (%d values: Str over %d strings x Strs over all lists of bounded length + a 40-element list + the empty non-nil slice) and of S2{I,I8,U,U32,F64,F32,B,Is,Fs,Bs,Us,F32s} (%d values: scalar product x 3 slice configurations, plus scalar base points x product of the slice lists) "+
+				"is sent with the bundled client's struct API of each of the 8 sources under splitting{off,on} x auto-handling{off,on} x {per-source bind method, Bind().Body() for body carriers} and compared with the struct decoded in the handler; pairs the carrier cannot legally transport, and comma-containing values under splitting, are skipped and counted; a case is non-trivial when the sent struct holds something an encoder/decoder pair can get wrong (a string that is empty or has a byte outside [A-Za-z0-9], a non-empty slice, a number at a type limit / non-integral / beyond 2^53). "+
+				"Part B: %d groups (5 key-value carriers x 5 bind targets x splitting; 5 body bind calls x 10 content types x 3 targets) each over all single hostile components and all ordered pairs of them, each request run with manual and automatic handling, judged for panic / error / status / paired consistency / allocation; non-trivial = the request got past the HTTP parser and reached the binder.",
 				len(shapes[0].Values), len(strAlpha), len(shapes[1].Values), len(groups)),
 			"bounds": map[string]any{
 				"string_alphabet": alpha, "s1_values": len(shapes[0].Values), "s2_values": len(shapes[1].Values),
